@@ -16,25 +16,27 @@ deriving Repr, Inhabited
 
 def remapT (rm : List (Ty × Ty)) (t : Ty) : Ty := (rm.lookup t).getD t
 
+/-- the return types of one provider that it does not itself receive, checked against what is
+    returned below; `none` = a forbidden override -/
+def shadowEach (fm : IP) : List Ty → List Ty → Option (List Ty)
+  | [], returned => some returned
+  | t :: ts, returned =>
+    if !returned.contains t then shadowEach fm ts (t :: returned)
+    else if (fm.c.cls == .fallibleStaticInjectorFunc || fm.c.cls == .fallibleInjectorFunc) && (t == tError || t == tTerminal) then
+      shadowEach fm ts returned
+    else if fm.c.shadowOK.contains t then shadowEach fm ts returned
+    else none
+
+/-- walk from the last provider to the first -/
+def shadowGo : List IP → List Ty → Bool
+  | [], _ => true
+  | fm :: rest, returned =>
+    match shadowEach fm (fm.c.ret.filter fun t => !fm.c.recv.contains t) returned with
+    | none => false
+    | some returned => shadowGo rest returned
+
 /-- `checkForShadowing`, over all funcs (included or not), from the last to the first -/
-def checkShadowing (ch : Chain) : Bool :=
-  let rec go : List IP → List Ty → Bool
-    | [], _ => true
-    | fm :: rest, returned =>
-      let news := fm.c.ret.filter fun t => !fm.c.recv.contains t
-      -- walk the return types this provider does not itself receive
-      let rec each : List Ty → List Ty → Option (List Ty)
-        | [], returned => some returned
-        | t :: ts, returned =>
-          if !returned.contains t then each ts (t :: returned)
-          else if (fm.c.cls == .fallibleStaticInjectorFunc || fm.c.cls == .fallibleInjectorFunc) && (t == tError || t == tTerminal) then
-            each ts returned
-          else if fm.c.shadowOK.contains t then each ts returned
-          else none
-      match each news returned with
-      | none => false
-      | some returned => go rest returned
-  go ch.reverse []
+def checkShadowing (ch : Chain) : Bool := shadowGo ch.reverse []
 
 structure SlotState where
   reg : List Ty                 -- types registered (value -1) by the pre-fill loop
